@@ -3,6 +3,7 @@
 #include "common/refhash.hpp"
 #include <cerrno>
 #include <unistd.h>
+#include <sys/mman.h>
 extern "C" {
 #include "qlibc.h"
 }
@@ -149,6 +150,34 @@ bool vf_enumerate(Ctx &c, EnumStats &st) {
                 st.evaluations++; st.nontrivial++;
                 if (st.samples.size() < 3 && idx % 7919 == 11) st.samples.push_back(c.trace);
             }
+    // very long inputs (the 64-bit bit counter of MD5 crosses 2^32 at 2^29 bytes): an untouched
+    // anonymous mapping with a few bytes set, hashed once by the library and once by the
+    // streaming reference; one shard does it
+    if (shard == 0) {
+        static const size_t big[] = {(size_t)1 << 29, ((size_t)1 << 29) - 1, ((size_t)1 << 29) + 5};
+        size_t nbig = c.tier ? 3 : 1;
+        size_t cap = ((size_t)1 << 29) + 4096;
+        uint8_t *m = (uint8_t *)mmap(nullptr, cap, PROT_READ | PROT_WRITE, MAP_PRIVATE | MAP_ANONYMOUS | MAP_NORESERVE, -1, 0);
+        if (m != MAP_FAILED) {
+            m[0] = 'q'; m[12345] = 0x80; m[((size_t)1 << 29) - 2] = 7;
+            for (size_t i = 0; i < nbig; i++) {
+                size_t n = big[i];
+                c.trace = strf("huge input: %zu bytes (2^29%+ld)", n, (long)n - (1L << 29));
+                alignas(16) uint8_t d[16]; uint8_t e[16];
+                bool ok = qhashmd5(m, n, d);
+                ref::md5(m, n, e);
+                if (!ok || memcmp(d, e, 16) != 0) { munmap(m, cap); c.fail(FUNC, "hash:md5", "qhashmd5 of %zu bytes = %s, RFC 1321 MD5 = %s", n, ref::hex16(d).c_str(), ref::hex16(e).c_str()); }
+                uint32_t f = qhashfnv1_32(m, n), fr = ref::fnv1_32(m, n);
+                if (f != fr) { munmap(m, cap); c.fail(FUNC, "hash:fnv1_32", "qhashfnv1_32 of %zu bytes = %08x, FNV-1 = %08x", n, f, fr); }
+                uint32_t mm = qhashmurmur3_32(m, n), mr = ref::murmur3_32(m, n, 0);
+                if (mm != mr) { munmap(m, cap); c.fail(FUNC, "hash:murmur3_32", "qhashmurmur3_32 of %zu bytes = %08x, MurmurHash3_x86_32 = %08x", n, mm, mr); }
+                st.evaluations++; st.nontrivial++;
+                st.samples.push_back(c.trace);
+            }
+            munmap(m, cap);
+            st.extra["max_huge_input_bytes"] = (uint64_t)big[nbig > 2 ? 2 : 0];
+        }
+    }
     st.states = st.evaluations;
     st.extra["max_length"] = maxlen;
     return true;
